@@ -301,9 +301,17 @@ def rule_manual_tick_gated(ctx, crate, rule="R-MANUAL-TICK-GATED"):
     ti = K.find_one(ctx, crate, rule, r"progress_bar::ProgressBar::tick_inner")
     if ti:
         for c in ti.calls(r"state::BarState::tick"):
+            def locks_slot(sl):
+                return any(T_CLASS in (x.callee.get("targs") or [""])[0] for x in sl.calls if x.matches(*L.ACQUIRE))
+
             def pred(sl):
-                return sl.has_call(r"std::option::Option::<T>::is_none") and any(T_CLASS in (x.callee.get("targs") or [""])[0] for x in sl.calls if x.matches(*L.ACQUIRE))
-            g = K.guarded_by_true_of(ti, c.bb, pred)
+                return sl.has_call(r"std::option::Option::<T>::is_none") and not sl.has_call(r"std::option::Option::<T>::is_some") and \
+                    not [a for a in sl.atoms if a[0] == "unop"] and locks_slot(sl)
+
+            def npred(sl):
+                return sl.has_call(r"std::option::Option::<T>::is_some") and not sl.has_call(r"std::option::Option::<T>::is_none") and \
+                    not [a for a in sl.atoms if a[0] == "unop"] and locks_slot(sl)
+            g = K.guarded_by_true_of(ti, c.bb, pred) or K.guarded_by_false_of(ti, c.bb, npred)
             ctx.check(g is not None, rule, "tick_inner", ti.name, c.loc(), "manual tick only when no ticker is installed (slot.is_none())",
                       "manual ticks advance the spinner although a steady ticker is installed", cfg)
     up = K.find_one(ctx, crate, rule, r"progress_bar::ProgressBar::update")
